@@ -61,10 +61,16 @@ def analyze(data, fs, spec, **over):
         kw.update(win="kaiser", psll=spec.get("psll", 120))
     elif w == "hann":
         kw.update(win="hann")
+    elif w.startswith("sp:"):
+        # the scipy window function itself as the callable (it has a `sym` keyword, default True): the configured window is fn(L)
+        from scipy.signal import windows as spw
+        kw.update(win=getattr(spw, w[3:]), olap=0.6)
     else:
         from scipy.signal import windows as spw
         fn = getattr(spw, w)
         kw.update(win=(lambda L, _f=fn: _f(int(L), sym=False)), olap=0.6)
+    if "olap" in spec:
+        kw["olap"] = spec["olap"]
     kw.update(over)
     with np.errstate(all="ignore"):
         return speckit.compute_spectrum(data, fs, **kw)
@@ -240,6 +246,9 @@ def _record_analysis(spec):
                         w = np.kaiser(L + 1, kaiser_alpha(spec.get("psll", 120)) * np.pi)[:-1]
                     elif spec["win"] == "hann":
                         w = np.hanning(L)
+                    elif spec["win"].startswith("sp:"):
+                        from scipy.signal import windows as spw
+                        w = getattr(spw, spec["win"][3:])(L)
                     else:
                         from scipy.signal import windows as spw
                         w = getattr(spw, spec["win"])(L, sym=False)
@@ -259,6 +268,9 @@ def _record_analysis(spec):
                         w = np.kaiser(L + 1, kaiser_alpha(spec.get("psll", 120)) * np.pi)[:-1]
                     elif spec["win"] == "hann":
                         w = np.hanning(L)
+                    elif spec["win"].startswith("sp:"):
+                        from scipy.signal import windows as spw
+                        w = getattr(spw, spec["win"][3:])(L)
                     else:
                         from scipy.signal import windows as spw
                         w = getattr(spw, spec["win"])(L, sym=False)
